@@ -115,6 +115,8 @@ class FakeS3(httpx.AsyncBaseTransport):
             hdrs = {}
             if fault.get('retry_after') is not None:
                 hdrs['retry-after'] = str(fault['retry_after'])
+            if fault.get('location') is not None:
+                hdrs['location'] = fault['location']
             body = {'xml': b'<?xml version="1.0" encoding="UTF-8"?><Error><Code>ServiceUnavailable</Code><Message>injected</Message></Error>',
                     'html': b'<html><head><title>502 Bad Gateway</title></head><body><center><h1>502 Bad Gateway</h1></center><hr>nginx</body></html>',
                     'text': b'upstream connect error or disconnect/reset before headers', 'json': b'{"error": "rate limited"}',
@@ -184,7 +186,10 @@ class FakeS3(httpx.AsyncBaseTransport):
 
 
 def attach(backend, transport):
-    """Replace the adapter's HTTP client by one that talks to `transport` (same event hooks)."""
-    old = backend._client
-    backend._client = httpx.AsyncClient(transport=transport, timeout=None, event_hooks=old.event_hooks)
+    """Make the adapter's own HTTP client talk to `transport`. The client object is kept, so that everything the
+    adapter configured on it (event hooks, redirect policy, default headers, auth, timeouts) stays in force; only the
+    place where requests go changes."""
+    client = backend._client
+    client._transport = transport
+    client._mounts = {}
     return backend
